@@ -52,6 +52,11 @@ INVALID = [
     ("unicode-hex-lookalike-pair", lambda r: "ａｂ"),
     ("plus-sign", lambda r: "+1"),
     ("0x-prefix-even", lambda r: "0xfe"),
+    # long inputs whose fault sits far from the start (anything that works through the text in blocks meets it late)
+    ("long-valid-then-zz", lambda r: r.randbytes(r.randrange(600, 2100)).hex() + "zz"),
+    ("long-odd-length", lambda r: r.randbytes(r.randrange(600, 2100)).hex() + "a"),
+    ("long-with-one-bad-digit-in-the-middle", lambda r: (lambda h: h[: len(h) // 2 | 1] + "g" + h[(len(h) // 2 | 1) + 1:])(r.randbytes(r.randrange(700, 1500)).hex())),
+    ("long-trailing-newline", lambda r: r.randbytes(r.randrange(600, 1500)).hex() + "\n"),
 ]
 # not strings at all: whatever they do, the next valid call must be right
 NON_STR = [("bytes", lambda r: b"fef0"), ("bytearray", lambda r: bytearray(b"fef0a5")), ("memoryview", lambda r: memoryview(b"00")),
